@@ -148,12 +148,16 @@ def cplx(c):
 # ---- gate programs -------------------------------------------------------------------------
 def st_gate(N, kinds=None):
     """one deterministic gate as a dict; qubits ascending except CNOT (both orientations)."""
-    kinds = kinds or ['rot', 'fmap', 'bmap', 'H', 'S', 'X', 'Y', 'Z', 'C', 'CNOT']
+    kinds = kinds or ['rot', 'rotc', 'fmap', 'bmap', 'H', 'S', 'X', 'Y', 'Z', 'C', 'CNOT']
     opts = []
     if 'rot' in kinds:
         opts.append(st.integers(1, min(N, 3)).flatmap(
             lambda n: st.fixed_dictionaries({'kind': st.just('rot'), 'qubits': st_subset(N, n),
-                                             'gen': st_herm(n, nonidentity=True)})))
+                                             'gen': st_herm(n, nonidentity=True), 'genform': st.sampled_from(['pauli', 'pauli', 'monomial'])})))
+    if 'rotc' in kinds:
+        # gate made by clifford_rotation_gate from a full-register generator given in one of the accepted forms; it acts on the support
+        opts.append(st.tuples(st_herm(N, nonidentity=True), st.sampled_from(['pauli', 'str', 'monomial', 'monomial-half'])).map(
+            lambda t: {'kind': 'rotc', 'gen': t[0], 'form': t[1], 'qubits': [i for i, ch in enumerate(t[0][1:]) if ch != 'I']}))
     for mk in ('fmap', 'bmap'):
         if mk in kinds:
             opts.append(st.integers(1, min(N, 2)).flatmap(
